@@ -361,7 +361,7 @@ Definition rec_of (gi : nat) (r : gres) (j : nat) : psrc :=
   let fd := nth j (gr_fd r) ([], None) in
   mkP (nth j (gr_srcs r) src0) (nth j (fo_par (gr_out r)) (0, 0, 0)) (gr_out r)
       (errs_of fixed nextra (length (gr_srcs r)) j (fo_cov (gr_out r)))
-      (length (fst fd)) (snd fd) (length (gr_srcs r)) gi j.
+      (length (fst fd)) (snd fd) (length (gr_srcs r)) gi j (nth j (fo_ext (gr_out r)) []).
 Lemma per_group_eq gi r : PG gi r = map (rec_of gi r) (seq 0 (length (gr_srcs r))).
 Proof. reflexivity. Qed.
 
@@ -521,7 +521,7 @@ Definition spec_psrc (srcs : list src) (k : nat) (s : src) : psrc :=
   let fo := fitter k (call_of srcs s) in    (* what the fitter returned for that group *)
   let d := nth j (fd_of g) ([], None) in    (* fit data of s itself *)
   mkP s (nth j (fo_par fo) (0, 0, 0)) fo (errs_of fixed nextra (length g) j (fo_cov fo))
-      (length (fst d)) (snd d) (length g) k j.
+      (length (fst d)) (snd d) (length g) k j (nth j (fo_ext fo) []).
 Definition spec_res (srcs : list src) (key : rkey) (k : nat) (s : src) : list Z :=
   let g := group_of srcs s in
   nth (pos_by_id (s_id s) g)
@@ -530,7 +530,7 @@ Definition spec_row (srcs : list src) (key : rkey) (k : nat) (s : src) : orow :=
   let p := spec_psrc srcs k s in
   let res := spec_res srcs key k s in
   mkRow s (Z.of_nat (p_gsize p)) (p_par p) (err_cols fixed p) (Z.of_nat (p_npix p))
-        (flags ny nx fy fx sc xyb p) (qfit_num key res) (cfit_num key res (p_cen p)) k (p_slot p).
+        (flags ny nx fy fx sc xyb p) (qfit_num key res) (cfit_num key res (p_cen p)) k (p_slot p) (p_ext p).
 
 Lemma fit_groups_srcs gs : forall k calls rs, FG k gs = (calls, None, rs) -> map gr_srcs rs = gs.
 Proof.
